@@ -79,7 +79,7 @@ func checkUntrustedSizes(c *core.Ctx, r *core.Rule, prog *core.Prog) {
 						continue
 					}
 					n++
-					guarded := false
+					guarded, bounded := false, false
 					for d := b; d != nil; d = d.Idom() {
 						if d == b {
 							continue
@@ -91,15 +91,42 @@ func checkUntrustedSizes(c *core.Ctx, r *core.Rule, prog *core.Prog) {
 						if bo, ok := iff.Cond.(*ssa.BinOp); ok {
 							switch bo.Op {
 							case token.GTR, token.GEQ, token.LSS, token.LEQ:
-								if contentLengthSource(bo.X, 0) != nil || contentLengthSource(bo.Y, 0) != nil {
-									guarded = true
+								xs, ys := contentLengthSource(bo.X, 0) != nil, contentLengthSource(bo.Y, 0) != nil
+								if !xs && !ys {
+									continue
+								}
+								other := bo.Y
+								if ys && !xs {
+									other = bo.X
+								}
+								if k, isK := core.ConstInt(other); isK && (k == 0 || k == 1 || k == -1) {
+									guarded = true // sign test
+								} else if !(xs && ys) {
+									bounded = true // compared with a limit: a constant other than 0 / ±1, or a value that is not the length
 								}
 							}
 						}
 					}
+					// min(n, limit) bounds as well
+					if call, ok := size.(*ssa.Call); ok {
+						if bi, ok := call.Common().Value.(*ssa.Builtin); ok && bi.Name() == "min" {
+							bounded = true
+						}
+					}
+					if cv, ok := size.(*ssa.Convert); ok {
+						if call, ok := cv.X.(*ssa.Call); ok {
+							if bi, ok := call.Common().Value.(*ssa.Builtin); ok && bi.Name() == "min" {
+								bounded = true
+							}
+						}
+					}
 					key := "untrusted-size:" + core.FuncName(fn)
+					if guarded && !bounded {
+						r.Fail(key+":unbounded", c.Pos(in.Pos()), fmt.Sprintf("%s passes a size derived from the request's ContentLength to %s under a sign test only: the client chooses that number, a request that declares 2^63-1 bytes and sends ten makes the allocation panic (len out of range) before a byte is read — the connection is dropped without an answer", core.FuncName(fn), what))
+						continue
+					}
 					if guarded {
-						r.Pass(fmt.Sprintf("%s: %s(ContentLength) under a sign test", key, what))
+						r.Pass(fmt.Sprintf("%s: %s(ContentLength) under a sign test and an upper limit", key, what))
 					} else {
 						r.Fail(key, c.Pos(in.Pos()), fmt.Sprintf("%s passes a size derived from the request's ContentLength to %s without testing its sign: a chunked (length -1) request panics the server", core.FuncName(fn), what))
 					}
